@@ -583,7 +583,7 @@ var nodeMutations = []string{
 	"path-flip", "path-short", "path-long", "nh-flip", "bh-unknown", "bh-other", "oracle-wrongroot",
 	"swap", "drop-first", "drop-mid", "drop-last", "dup-last", "append-junk", "append-child",
 	"node-bitflip", "node-trunc", "node-extend", "node-empty", "node-random", "empty-proof", "other-key-proof",
-	"over-proof", "over-node", "over-path", "unknown-type",
+	"over-proof", "over-node", "over-path", "unknown-type", "last-short-slice", "last-short-slice",
 }
 
 func c13FlipBit(r *rand.Rand, b []byte) {
@@ -721,6 +721,22 @@ func mutateNodeItem(r *rand.Rand, w *c13world, it c13item, mut string, child []b
 		m.proof = cloneNodes(otherProof)
 	case "unknown-type":
 		m.typ = []byte{0x1f, 0x23, 0x00, 0xff}[r.Intn(4)]
+	case "last-short-slice":
+		// the claimed node is a short byte string (under 32 bytes, the size below which a trie embeds a child instead of
+		// hashing it) cut out of its parent's own encoding, and the key names ITS hash: everything is consistent except that
+		// the parent does not reference it
+		if len(m.proof) < 2 {
+			return m, false
+		}
+		parent := m.proof[len(m.proof)-2]
+		n := min(1+r.Intn(31), len(parent))
+		off := r.Intn(len(parent) - n + 1)
+		if r.Intn(3) == 0 {
+			off = len(parent) - n // the tail: for a branch without a value it ends with the empty-string byte 0x80
+		}
+		sl := bytes.Clone(parent[off : off+n])
+		m.proof[len(m.proof)-1] = sl
+		m.nh = crypto.Keccak256(sl)
 	default:
 		if !mutateProof(r, mut, &m.proof, child) {
 			return m, false
